@@ -62,6 +62,11 @@ pub fn alphabet(lw: u32, lh: u32, pairs: bool) -> Vec<Op> {
                     }
                     ops.push(Op::FillSolid { r, c: 0x0301 + area as u32 });
                     ops.push(Op::FillContiguous { r, colors: Colors::Coded { base: 0x0401, len: Some(area) } });
+                    if area > 1 {
+                        // a colour stream that ends early: the remaining points stay untouched (and nothing stale is sent)
+                        ops.push(Op::FillContiguous { r, colors: Colors::Coded { base: 0x0411, len: Some(area - 1) } });
+                        ops.push(Op::FillContiguous { r, colors: Colors::Coded { base: 0x0421, len: Some(1) } });
+                    }
                     ops.push(Op::DrawIter(Pixels::Syms { syms: vec![Sym::Block { x: r.x, y: r.y, w: r.w, h: r.h }], base: 0x0501 }));
                 }
             }
@@ -87,9 +92,8 @@ pub fn alphabet(lw: u32, lh: u32, pairs: bool) -> Vec<Op> {
 pub fn transports(c666: bool, quick: bool) -> Vec<Transport> {
     let n: u16 = if c666 { 3 } else { 2 };
     let mut v = vec![Transport::RecSerial, Transport::Spi { len: n }, Transport::Spi { len: n + 1 }, Transport::Spi { len: 2 * n + 1 }, Transport::Par8];
-    if !quick {
-        v.push(Transport::Spi { len: 64 });
-    }
+    // a staging buffer larger than any burst of the small displays (single-transaction paths)
+    v.push(Transport::Spi { len: 64 });
     if !c666 {
         v.push(Transport::RecPar16);
         v.push(Transport::Par16);
